@@ -70,6 +70,10 @@ SHORT = {
  'C14d': 'parser (`parse_key_code`): the error message shortens an over-long key name with a byte slice (`&text[..24]` panics inside a multi-byte character)',
  'C19d': '`remove_mapping`: the hand-over branch `continue`s past the removal from the mapped outputs (the key stays in both lists; a later release is sent twice)',
  'C20d': 'per-device loop: an error of `next_tablet` outside tablet mode is logged and treated like Busy',
+ 'C13i': '`convert_row`: the "repeat has more letters than the output" guard compares `String::len()` (bytes) instead of the number of letters (a legal row with a multi-byte repeat letter under a space of the output is refused)',
+ 'C13j': '`FromSet::new`: all keys of a trigger are sorted, the final key included (triggers with the same keys and a different final key share a table entry; a repeat-only entry overwrites the wrong mapping)',
+ 'C13k': 'parser (`parse_single_or_alias_to_array`): a one-element `to` array is handed to the single-key path, which refuses `["@alias"]` while the bare spelling `"@alias"` still works',
+ 'C14g': 'parser: a `field()` accessor treats JSON `null` as "not given" while the guards `has_at_least_keys` / `has_exactly_keys` still count the key as present (`unwrap` of `None` on `{"from":"A","to":null}`)',
  'C02e': '`add_new_mapping`: the `should_absorb` guard removed, `release_absorbed_keys` runs on every key-producing activation (a double tap of an absorbing combo forgets the held modifier; its later release is ignored and the output stays down)',
  'C04e': '`add_new_mapping`: the pass-through claim step moved before `release_absorbed_keys` (a trigger modifier handed back by a torn-down absorbing remap stays down). Manifests only with an absorbing mapping - outside the quantifier of C04 (non-absorbing layouts), hence UNDECIDED there; reported through C02 and C05',
  'C05f': '`is_action_key`: table lookup in a list that names `LEFTALT` twice and omits `RIGHTALT` (AltGr treated as a repeatable key)',
